@@ -2,6 +2,7 @@
   C04  Paths and accessors address exactly the leaves.
 -/
 import OptreeModel.Model.Inspect
+import OptreeModel.Lemmas.EncPaths
 
 namespace Optree
 
@@ -146,5 +147,119 @@ def C04_demoSpec : Spec :=
     noneIsLeaf := false, ns := "" }
 
 example : (C04_demoSpec.numNodes == 1 && C04_demoSpec.numLeaves == 1) = false := by decide
+
+/-! ### refinement: `paths()` lists the entries from the root to every leaf
+
+`STree.pathsT s pre` (Model/STree.lean) is the documented meaning of a path: for a leaf, the entries
+collected so far; for a node, the paths of its children, each extended by that child's entry (position,
+dict key in the stored key order, or the entry the registration declares), concatenated in child order.
+`None` nodes and childless containers contribute nothing. -/
+
+/-- **`paths()` on an encoding is `pathsT`** (reversed-array index walk with an explicit stack), for all
+shapes with one entry per child -/
+theorem C04_paths_refines (s : STree) (hw : s.wf = true) (hk : s.entriesOk = true) (nil : Bool)
+    (ns : String) : paths (s.spec nil ns) = .ok (s.pathsT []) := paths_enc s hw hk nil ns
+
+/-- one path per leaf -/
+theorem C04_paths_count (s : STree) (hk : s.entriesOk = true) (pre : List Key) :
+    (s.pathsT pre).length = s.leaves := STree.pathsT_length s pre hk
+
+/-- for a treespec made by flattening any well-formed tree: the paths are those of its shape, one per
+leaf returned -/
+theorem C04_paths_of_flatten (cfg : Cfg) (hp : cfg.pred = Option.none) (t : PyObj) (ht : t.wf = true)
+    (ls : List PyObj) (sp : Spec) (h : flatten cfg t = .ok (ls, sp)) :
+    ∃ ps, paths sp = .ok ps ∧ ps = (shapeOf cfg (!cfg.insertionOrdered) t).pathsT [] ∧ ps.length = ls.length := by
+  obtain ⟨e, hl⟩ := flatten_shapeOf cfg hp t ht ls sp h
+  obtain ⟨w, _⟩ := wg cfg (!cfg.insertionOrdered) t ht
+  have hk := eo cfg (!cfg.insertionOrdered) t
+  refine ⟨_, ?_, rfl, ?_⟩
+  · rw [e]; exact C04_paths_refines _ w hk _ _
+  · rw [C04_paths_count _ hk, hl]
+
+mutual
+/-- every path below a node starts with the entries that lead to the node -/
+theorem STree.pathsT_prefix : ∀ (s : STree) (pre : List Key) (p : List Key), p ∈ s.pathsT pre → pre <+: p
+  | .leaf, pre, p, h => by
+      simp only [STree.pathsT, List.mem_singleton] at h
+      subst h; exact List.prefix_refl _
+  | .node i cs, pre, p, h => by
+      obtain ⟨e, _, hp⟩ := STree.pathsL_prefix cs _ pre p h
+      exact (List.prefix_append pre [e]).trans hp
+theorem STree.pathsL_prefix : ∀ (cs : List STree) (es pre : List Key) (p : List Key),
+    p ∈ STree.pathsL cs es pre → ∃ e ∈ es, (pre ++ [e]) <+: p
+  | [], _, _, _, h => by simp [STree.pathsL] at h
+  | _ :: _, [], _, _, h => by simp [STree.pathsL] at h
+  | c :: cs, e :: es, pre, p, h => by
+      simp only [STree.pathsL, List.mem_append] at h
+      rcases h with h | h
+      · exact ⟨e, by simp, STree.pathsT_prefix c (pre ++ [e]) p h⟩
+      · obtain ⟨e', he', hp⟩ := STree.pathsL_prefix cs es pre p h
+        exact ⟨e', by simp [he'], hp⟩
+end
+
+theorem STree.pathsL_prefix' (cs : List STree) (es pre p : List Key) (h : p ∈ STree.pathsL cs es pre) :
+    pre <+: p := by
+  obtain ⟨e, _, hp⟩ := STree.pathsL_prefix cs es pre p h
+  exact (List.prefix_append pre [e]).trans hp
+
+mutual
+/-- child entries pairwise distinct at every node (dict keys, positions, declared entries) -/
+def STree.entriesNodup : STree → Bool
+  | .leaf => true
+  | .node i cs => decide (i.childEntries cs.length).Nodup && STree.entriesNodupL cs
+def STree.entriesNodupL : List STree → Bool
+  | [] => true
+  | c :: cs => c.entriesNodup && STree.entriesNodupL cs
+end
+
+/-- two lists neither of which is a prefix of the other -/
+def Incomparable (p q : List Key) : Prop := ¬ p <+: q ∧ ¬ q <+: p
+
+theorem incomparable_of_entries (pre p q : List Key) (e e' : Key) (hne : e ≠ e')
+    (hp : (pre ++ [e]) <+: p) (hq : (pre ++ [e']) <+: q) : Incomparable p q := by
+  obtain ⟨p', rfl⟩ := hp
+  obtain ⟨q', rfl⟩ := hq
+  constructor
+  · rintro ⟨r, hr⟩
+    simp only [List.append_assoc, List.append_cancel_left_eq, List.singleton_append, List.cons_append,
+      List.cons.injEq] at hr
+    exact hne hr.1
+  · rintro ⟨r, hr⟩
+    simp only [List.append_assoc, List.append_cancel_left_eq, List.singleton_append, List.cons_append,
+      List.cons.injEq] at hr
+    exact hne hr.1.symm
+
+mutual
+/-- **the paths of a treespec are pairwise distinct and prefix-free** when the child entries of every
+node are distinct -/
+theorem C04_paths_prefix_free : ∀ (s : STree) (pre : List Key), s.entriesNodup = true →
+    (s.pathsT pre).Pairwise Incomparable
+  | .leaf, pre, _ => by simp [STree.pathsT]
+  | .node i cs, pre, h => by
+      simp only [STree.entriesNodup, Bool.and_eq_true, decide_eq_true_eq] at h
+      exact C04_paths_prefix_freeL cs _ pre h.1 h.2
+theorem C04_paths_prefix_freeL : ∀ (cs : List STree) (es pre : List Key), es.Nodup →
+    STree.entriesNodupL cs = true → (STree.pathsL cs es pre).Pairwise Incomparable
+  | [], _, _, _, _ => by simp [STree.pathsL]
+  | _ :: _, [], _, _, _ => by simp [STree.pathsL]
+  | c :: cs, e :: es, pre, hnd, h => by
+      simp only [STree.entriesNodupL, Bool.and_eq_true] at h
+      simp only [List.nodup_cons] at hnd
+      simp only [STree.pathsL]
+      rw [List.pairwise_append]
+      refine ⟨C04_paths_prefix_free c (pre ++ [e]) h.1, C04_paths_prefix_freeL cs es pre hnd.2 h.2, ?_⟩
+      intro p hp q hq
+      obtain ⟨e', he', hq'⟩ := STree.pathsL_prefix cs es pre q hq
+      have hne : e ≠ e' := fun heq => hnd.1 (heq ▸ he')
+      exact incomparable_of_entries pre p q e e' hne (STree.pathsT_prefix c (pre ++ [e]) p hp) hq'
+end
+
+/-- non-vacuity: `{"a": (*, *), "b": *}` has the three paths `a.0`, `a.1`, `b` -/
+def C04_demo : STree :=
+  .node ⟨.dict, .keys [.str "a", .str "b"], Option.none, Option.none, some [.str "b", .str "a"]⟩
+    [.node ⟨.tuple, .none, Option.none, Option.none, Option.none⟩ [.leaf, .leaf], .leaf]
+
+example : C04_demo.wf = true ∧ C04_demo.entriesOk = true ∧ C04_demo.entriesNodup = true ∧
+    C04_demo.pathsT [] = [[.str "a", .int 0], [.str "a", .int 1], [.str "b"]] := by decide
 
 end Optree
